@@ -271,8 +271,8 @@ impl Incremental {
             self.store.set_tests(&src.to_string_lossy(), names);
         }
 
-        // Restored files' diagnostics are already preserved by `Store::keep`,
-        // so only freshly analyzed files appear here.
+        // `diagnosed` holds each file's complete set (fresh and replayed), so
+        // replacing the blob `Store::keep` carried over loses nothing.
         for (src, diagnostics) in diagnosed {
             match fragment_cache::capture_diagnostics(diagnostics) {
                 Ok(blob) => self.store.set_diagnostics(&src.to_string_lossy(), &blob),
